@@ -29,13 +29,19 @@ func longStall(r *vf.Run) {
 	sc.KeepReads = false
 	var first int32
 	stalled := make(chan struct{})
-	sc.WriteDelay = func(n int) {
+	// The stall is a window of T seconds that starts with the first socket write after the handshake.  A socket write
+	// inside the window waits for its end - or for the write deadline its caller has set, whichever comes first: then it
+	// returns a timeout with NOTHING written, as a socket with a full send buffer does.
+	st := &stallConn{Conn: sc}
+	st.begin = func() {
 		if atomic.CompareAndSwapInt32(&first, 1, 2) {
+			st.mu.Lock()
+			st.until = time.Now().Add(T)
+			st.mu.Unlock()
 			close(stalled)
-			time.Sleep(T)
 		}
 	}
-	hc, err := hcx.ServerConn(sc, ctx, secret)
+	hc, err := hcx.ServerConn(st, ctx, secret)
 	if err != nil {
 		r.Inconclusive("long stall: ServerConn: " + err.Error())
 		return
@@ -99,6 +105,7 @@ func longStall(r *vf.Run) {
 	}
 	r.Eval()
 	r.Count("long_stall_seconds", int(T/time.Second))
+	r.Count("long_stall_socket_writes_given_up_at_their_deadline", int(atomic.LoadInt64(&st.timedOut)))
 	r.Count("long_stall_writes_that_returned_an_error", len(failed))
 	// payloads whose Write reported an error may be absent (the writer was told); they may not be half there
 	present := map[[2]int][]byte{}
@@ -125,4 +132,47 @@ func longStall(r *vf.Run) {
 		return
 	}
 	r.Count("long_stall_scenarios_held", 1)
+}
+
+// stallConn is the scripted connection with a stall window and write deadlines that are honoured.
+type stallConn struct {
+	*script.Conn
+	begin    func()
+	mu       sync.Mutex
+	until    time.Time // end of the stall window
+	deadline time.Time // write deadline set by the code under test (zero: none)
+	timedOut int64
+}
+
+type stallTimeout struct{}
+
+func (stallTimeout) Error() string   { return "i/o timeout (write, scripted stall)" }
+func (stallTimeout) Timeout() bool   { return true }
+func (stallTimeout) Temporary() bool { return true }
+
+func (c *stallConn) SetWriteDeadline(t time.Time) error {
+	c.mu.Lock()
+	c.deadline = t
+	c.mu.Unlock()
+	return nil
+}
+
+func (c *stallConn) SetDeadline(t time.Time) error { return c.SetWriteDeadline(t) }
+
+func (c *stallConn) Write(p []byte) (int, error) {
+	c.begin()
+	for {
+		c.mu.Lock()
+		until, dl := c.until, c.deadline
+		c.mu.Unlock()
+		now := time.Now()
+		if !dl.IsZero() && !now.Before(dl) && now.Before(until) {
+			atomic.AddInt64(&c.timedOut, 1)
+			return 0, stallTimeout{}
+		}
+		if !now.Before(until) {
+			return c.Conn.Write(p)
+		}
+		time.Sleep(20 * time.Millisecond)
+	}
 }
